@@ -1900,6 +1900,11 @@ impl<'a, S: RowSource> Executor<'a> for DynamicExecutor<'a, S> {
             }
             DynamicExecutor::GraceHashJoin(state) => {
                 if !state.partitioned {
+                    #[cfg(kahflane_turdb_verif)]
+                    crate::verif::point(
+                        "join.grace.open",
+                        &[state.use_spill as i64, state.spill_memory_limit as i64],
+                    );
                     if state.use_spill {
                         let spill_dir = state.spill_dir.clone().unwrap();
                         std::fs::create_dir_all(&spill_dir).ok();
